@@ -175,6 +175,30 @@ func (x *Exec) applyAnchor(a *Anchor, s ast.Stmt, st *State, env *Env) {
 		t := x.evalClause(a.C, sc, st, env)
 		x.fc.assume(st.pc, t)
 		x.assumes = append(x.assumes, fmt.Sprintf("%s: assume %s", x.fc.Name, a.C.Text))
+	case "cover":
+		// reachability check: the condition is satisfiable here (guards against vacuous hypotheses)
+		t := x.evalClause(a.C, sc, st, env)
+		cov := x.fc.oblige("cover", clauseLabel(a.C, 0), mergeProps(x.props, a.C.Props), x.pos(s.Pos()), and(st.pc, t), "true", "reachable with "+a.C.Text)
+		cov.Expect = "sat"
+	case "apply":
+		// ghost call of a lemma function: its preconditions become obligations here, its postconditions facts
+		ex, err := x.checkSpec(a.C.Text, sc.pos, x.pkg, nil)
+		if err != nil {
+			x.abort("apply %s: %v", a.C.Text, err)
+		}
+		call, ok := ex.(*ast.CallExpr)
+		if !ok {
+			x.abort("apply %s: not a call", a.C.Text)
+		}
+		id, _ := ast.Unparen(call.Fun).(*ast.Ident)
+		var fn *types.Func
+		if id != nil {
+			fn, _ = x.objOf(id).(*types.Func)
+		}
+		if fn == nil || x.w.Contracts[funcKey(fn)] == nil || !x.w.Contracts[funcKey(fn)].Lemma {
+			x.abort("apply %s: only lemma functions (flags lemma) can be applied", a.C.Text)
+		}
+		x.evalCall(call, st, env)
 	case "ghost":
 		// ghost assignment: lhs = rhs
 		parts := splitTop(a.C.Text, '=')
@@ -222,6 +246,20 @@ func (x *Exec) ghostAssign(lhs, rhs string, sc specCtx, st *State, env *Env) {
 	if i := strings.Index(lhs, "["); i >= 0 {
 		name := strings.TrimSpace(lhs[:i])
 		idxText := lhs[i+1 : strings.LastIndex(lhs, "]")]
+		if strings.TrimSpace(idxText) == "*" {
+			// g[*] = v: every entry
+			p := "ghost:" + name
+			cur, ok := st.vars[p].(Scalar)
+			if !ok {
+				x.abort("ghost map %s not initialised", name)
+			}
+			nm := x.fc.fresh(name, cur.TI.sort())
+			x.fc.n++
+			a := fmt.Sprintf("at!%d", x.fc.n)
+			x.fc.assume("true", fmt.Sprintf("(forall ((%s Int)) (! (= (select %s %s) %s) :pattern ((select %s %s))))", a, nm, a, rv.(Scalar).T, nm, a))
+			st.vars[p] = Scalar{nm, cur.TI}
+			return
+		}
 		iv := x.evalSpecValue(idxText, sc, st, env).(Scalar)
 		p := "ghost:" + name
 		cur, ok := st.vars[p].(Scalar)
